@@ -24,7 +24,7 @@ META = {
     ],
     "floors": {
         "quick": {"histories": 2500, "final_snapshots_compared": 2500, "intermediate_time_reads_vs_model": 20000, "events_set_reg": 800,
-                  "events_enter_override": 800, "events_plot_compact": 500, "events_plot_full": 500, "events_apply_modifiers": 800, "events_flatten": 300, "grow_applied": 150},
+                  "events_enter_override": 800, "events_plot_compact": 500, "events_plot_full": 500, "events_apply_modifiers": 800, "events_flatten": 300, "grow_applied": 150, "grow_inner_applied": 60},
         "thorough": {"histories": 30000, "final_snapshots_compared": 30000, "intermediate_time_reads_vs_model": 250000},
     },
 }
@@ -67,12 +67,38 @@ def gen_case(rng: random.Random, cls: str) -> Dict[str, Any]:
     block_idx = []
     will_unroll = rng.random() < 0.6
     will_flatten = rng.random() < 0.25
+    deep_done = False
+    deep_qubit = None
     for i, step in enumerate(prog["circuit"]["steps"]):
         events.append({"ev": "add", "step": step})
         if "sub" in step:
             block_idx.append(i)
         maybe_observe(0.3)
         maybe_settings(0.12)
+        if "sub" in step and not deep_done and not (will_unroll or will_flatten) and rng.random() < 0.8:
+            # growth two levels deep (seeded change C03-r15): the enclosing nested block grows (same footprint), the circuit is
+            # observed, then a block nested INSIDE it grows on a qubit that is new for the whole nested block; the history ends
+            # the building phase with a top-level operation on that qubit
+            inner = [j for j, st in enumerate(step["sub"]["steps"]) if "sub" in st]
+            leaves = [st for st in step["sub"]["steps"] if "sub" not in st and st["k"] != "DispersiveMeasure"]
+            free = [q for q in range(6) if q not in _qubits_of(step["sub"])]
+            if inner and free:
+                deep_done = True
+                if leaves and rng.random() < 0.8:
+                    src = rng.choice(leaves)
+                    g = {"k": src["k"], "q": list(src["q"])}
+                    if "chan" in src:
+                        g["chan"] = src["chan"]
+                    if "dur" in src:
+                        g["dur"] = src["dur"]
+                    events.append({"ev": "grow", "block": i, "step": g})
+                for _ in range(rng.randint(0, 2)):
+                    events.append({"ev": rng.choice(["plot_compact", "plot_full", "operations", "duration", "stim", "copy", "uuid", "times"])})
+                deep_qubit = rng.choice(free)
+                events.append({"ev": "grow_inner", "block": i, "inner": rng.choice(inner),
+                               "step": {"k": rng.choice(["Wait", "Rx180", "Ry90"]), "q": [deep_qubit]}})
+                maybe_observe(0.3)
+                continue
         if block_idx and rng.random() < 0.3:
             # grow a nested sub-circuit with an operation of a channel footprint it already has (a new footprint would
             # change which later operations match the block, which no history-free replay can reproduce)
@@ -96,6 +122,10 @@ def gen_case(rng: random.Random, cls: str) -> Dict[str, Any]:
                 if rng.random() < 0.5:
                     events.append({"ev": rng.choice(["duration", "handle_times", "duration"])})   # read before the next listing
                 maybe_observe(0.6)
+    if deep_qubit is not None:
+        # a top-level operation on the qubit that only the innermost block occupies: has to find the nested block as predecessor
+        events.append({"ev": "add", "step": {"k": rng.choice(["Rx180", "Ry90", "Wait", "Reset"]), "q": [deep_qubit]}})
+        maybe_observe(0.5)
     maybe_observe(0.5)
     maybe_settings(0.3)
     if will_unroll:
@@ -119,6 +149,13 @@ def gen_case(rng: random.Random, cls: str) -> Dict[str, Any]:
     settings = prog["settings"]
     settings["glob"] = {}
     return {"class": cls, "top_reps": prog["circuit"].get("reps", 1), "settings": settings, "events": events}
+
+
+def _qubits_of(circ: Dict[str, Any]) -> set:
+    out: set = set()
+    for st in circ["steps"]:
+        out |= _qubits_of(st["sub"]) if "sub" in st else set(st["q"])
+    return out
 
 
 def nontrivial(events: List[Dict[str, Any]]) -> bool:
@@ -169,6 +206,8 @@ class Run:
             self.model_level = self.built.top.mnodes
         elif kind == "grow":
             self._grow(e)
+        elif kind == "grow_inner":
+            self._grow(e, inner=True)
         elif kind == "set_reg":
             self.ctx.duration_registry.set_registry_at(e["key"], e["value"])
             S.reg[e["key"]] = e["value"]
@@ -212,16 +251,32 @@ class Run:
             raise ValueError(kind)
         self.last_mutation = kind
 
-    def _grow(self, e: Dict[str, Any]):
-        """Add an operation to a sub-circuit handle after it was nested."""
+    def _grow(self, e: Dict[str, Any], inner: bool = False):
+        """Add an operation to a sub-circuit handle after it was nested (``inner``: to a block nested inside that sub-circuit)."""
         if self.phase != "building":
             return
         top = self.built.top
         i = e["block"]
-        if i >= len(top.handles) or top.children[i] is None or i in self.grown:
+        key = (i, e["inner"]) if inner else i
+        if i >= len(top.handles) or top.children[i] is None or key in self.grown:
             return
         child = top.children[i]
         handle = top.handles[i]
+        if inner:
+            # the block inside the nested COPY that corresponds to step ``inner`` of the sub-circuit: same ordinal among the
+            # composite operations (growth only ever appends leaves)
+            j = e["inner"]
+            if j >= len(child.children) or child.children[j] is None:
+                return
+            ordinal = sum(1 for c in child.children[:j] if c is not None)
+            blocks = [o for o in snap.walk_nodes(handle) if snap.is_composite(o)]
+            if ordinal >= len(blocks) or len(blocks) != sum(1 for c in child.children if c is not None):
+                if self.acc is not None:
+                    self.acc.count("grow_inner_unresolved")
+                return
+            handle = blocks[ordinal]
+            child = child.children[j]
+            i = key
         before = snap.walk_nodes(handle)
         src = snap.walk_nodes(child.circuit.circuit_structure)
         op = bp.make_op(e["step"], self.ctx, [top])
@@ -242,8 +297,12 @@ class Run:
             if parent is None:
                 self.model_ok = False
         M.attach(child.mnodes, mnode, parent, M.FB)
+        if inner:
+            # the reference model does not follow a new head two levels deep (two histories of the unchanged tree place it later
+            # than the model, unclassified - DESIGN.md 7, round 16): from here on only the twin-run differential decides
+            self.model_ok = False
         if self.acc is not None:
-            self.acc.count("grow_applied")
+            self.acc.count("grow_inner_applied" if inner else "grow_applied")
 
     # -- observations (run A only); each may check against the model
     def observe(self, kind: str):
